@@ -84,14 +84,17 @@ def load_extra():
 
 def apply(prop, name):
     repo = os.environ["MREPO"]
-    for n, f, old, new in MUTANTS[prop]:
-        if n == name:
-            p = os.path.join(repo, f)
-            s = open(p).read()
-            if s.count(old) != 1:
-                print(f"mutant {prop}/{name}: old text occurs {s.count(old)} times in {f}")
-                sys.exit(1)
-            open(p, "w").write(s.replace(old, new))
+    for m in MUTANTS[prop]:
+        if m[0] == name:
+            # (name, file, old, new) or (name, [(file, old, new), ...]) for mutants with several cooperating sites
+            edits = m[1] if isinstance(m[1], list) else [(m[1], m[2], m[3])]
+            for f, old, new in edits:
+                p = os.path.join(repo, f)
+                s = open(p).read()
+                if s.count(old) != 1:
+                    print(f"mutant {prop}/{name}: old text occurs {s.count(old)} times in {f}")
+                    sys.exit(1)
+                open(p, "w").write(s.replace(old, new))
             return
     print("unknown mutant")
     sys.exit(1)
@@ -103,7 +106,7 @@ def main():
     if not a or a[0] == "--list":
         for p, ms in sorted(MUTANTS.items()):
             for m in ms:
-                print(p, m[0], m[1])
+                print(p, m[0], m[1] if isinstance(m[1], str) else [e[0] for e in m[1]])
         return
     if a[0] == "--apply":
         apply(a[1], a[2])
